@@ -273,7 +273,11 @@ impl Session {
             }
             ["area", s, d, nm] => {
                 let (s, d) = (parse_hex(s)?, unhex(d)?);
-                Some(res_unit(self.ax().mem_init_area_named(s, d, name_opt(nm))))
+                // (the unnamed variant goes through the public wrapper it has)
+                Some(res_unit(match name_opt(nm) {
+                    Some(name) => self.ax().mem_init_area_named(s, d, Some(name)),
+                    None => self.ax().mem_init_area(s, d),
+                }))
             }
             ["areaz", s, n, seed, nm] => {
                 let (s, n, seed) = (parse_hex(s)?, parse_hex(n)?, parse_hex(seed)?);
